@@ -21,6 +21,21 @@ def schema_model():
     m.add_spec("some_bad", ["api", "L", "n"], "exists(lambda i: bad_setting(api, L, i), 0, n)")
     # well-formedness of the schema (what API.build guarantees): every method's input type is a registered message
     m.add_spec("wf_api", ["api"], "forall(lambda mm: mm.input_type.lstrip('.') in api.messages, api.all_methods.values())")
+    # API is a frozen dataclass; all_methods / messages are pure (cached) functions of its fields: two views over the same protos with the
+    # same sub-package restriction expose the same methods and messages
+    import z3
+    from vf.smt import Ref, fn
+    from vf.types import seq_len
+    m.classes["API"].update({"all_protos": "Opaque", "naming": "Naming", "subpackage_view": "Seq[Str]",
+                             "_fields": ["naming", "all_protos", "service_yaml_config", "subpackage_view"]})
+    a = z3.Const("api_a", Ref)
+    protos, view = fn("API.all_protos", Ref, Ref), fn("API.subpackage_view", Ref, Ref)
+    for attr in ("all_methods", "messages"):
+        acc = fn("API." + attr, Ref, Ref)
+        m.add_axiom(z3.ForAll([a], acc(a) == fn("derived.API." + attr, Ref, Ref, Ref)(protos(a), view(a)), patterns=[acc(a)]))
+        # ... and every unrestricted view (empty subpackage_view, whichever tuple object holds it) exposes the same
+        m.add_axiom(z3.ForAll([a], z3.Implies(seq_len(view(a)) == 0, acc(a) == fn("derived0.API." + attr, Ref, Ref)(protos(a))), patterns=[acc(a)]))
+    m.assumptions.append("API.all_methods and API.messages are functions of (all_protos, subpackage_view) alone (pure cached properties of a frozen dataclass)")
     return m
 
 
@@ -36,10 +51,12 @@ def contracts(m):
                                "(len(all_errors) > 0) == some_bad(self, service_method_settings, _k)"],
                      "for#2": ["(len(selector_errors) > 0) == exists(lambda j: bad_field(top_level_request_message, method_settings.auto_populated_fields[j]), 0, _k)"],
                  }),
+        # `whole` (ghost): the view of the same API that is not restricted to a sub-package - selectors and request types are judged against it,
+        # whichever (sub-package) view the templates happen to read the settings through
         Contract("API.all_method_settings", source=(A, "API.all_method_settings"),
-                 params={"self": "API"}, result="Opaque",
-                 requires=["wf_api(self)"],
-                 raises={"MethodSettingsError": "some_bad(self, self.service_yaml_config.publishing.method_settings, "
+                 params={"self": "API"}, ghost={"whole": "API"}, result="Opaque",
+                 requires=["whole.all_protos is self.all_protos", "whole.subpackage_view is ()", "wf_api(whole)"],
+                 raises={"MethodSettingsError": "some_bad(whole, self.service_yaml_config.publishing.method_settings, "
                                                 "len(self.service_yaml_config.publishing.method_settings))"}),
     ]
 
